@@ -117,4 +117,20 @@ def offsFrom (base : Nat) : List Nat → List Nat
 
 def sumL (l : List Nat) : Nat := l.foldl (· + ·) 0
 
+/-! ## Width folding of a strided convolution (`fixup_strided_conv`) -/
+
+/-- the IFM with `r` columns folded into the depth: column `x'`, channel `c'` is column `r * x' + c' / C`, channel `c' % C` (the
+    row-major re-interpretation of `[H, W, C]` as `[H, W / r, r * C]`) -/
+def foldedIfm (r C : Nat) (ifm : Nat → Nat → Nat → Int) : Nat → Nat → Nat → Int :=
+  fun y x' c' => ifm y (r * x' + c' / C) (c' % C)
+
+/-- the filter with `L` zero columns in front (and zeros behind) -/
+def paddedFilter (L kw : Nat) (wgt : Nat → Nat → Nat → Int) : Nat → Nat → Nat → Int :=
+  fun ky kxp c => if L ≤ kxp ∧ kxp - L < kw then wgt ky (kxp - L) c else 0
+
+/-- the padded filter re-interpreted the same way -/
+def foldedFilter (r C L kw : Nat) (wgt : Nat → Nat → Nat → Int) : Nat → Nat → Nat → Int :=
+  fun ky kx' c' => paddedFilter L kw wgt ky (r * kx' + c' / C) (c' % C)
+
+
 end VelaVerif.RewriteSem
